@@ -61,6 +61,23 @@ RT(v) ==
        /\ vals' = <<v>> /\ encs' = <<e>> /\ wire' = e
        /\ rpos' = d.next /\ backs' = <<d.v>> /\ again' = <<EncValue(d.v)>>
 
+\* ---- deep values, described flat ----------------------------------------------
+\* A value nested hundreds or thousands of containers deep is described by its SPINE: the
+\* containers on the way down to the deepest part, outermost first, each with the entries
+\* before and behind the one that continues the descent, and the value at the bottom:
+\*   level = [t |-> 70 | 80 | 81, k |-> key of the descending entry (<<>> in a list),
+\*            pre |-> entries before it, post |-> entries behind it]
+\* (entries: values in a list, <<key, value>> pairs in a map / int map).  Nothing but the
+\* notation is flat: Spine(sp, inner) is an ordinary value, as deep as the spine is long.
+RECURSIVE SpineFrom(_, _, _)
+SpineFrom(sp, i, inner) ==
+  IF i > Len(sp) THEN inner
+  ELSE IF sp[i].t = TList
+       THEN Val(TList, sp[i].pre \o <<SpineFrom(sp, i + 1, inner)>> \o sp[i].post)
+       ELSE Val(sp[i].t, sp[i].pre \o << <<sp[i].k, SpineFrom(sp, i + 1, inner)>> >> \o sp[i].post)
+Spine(sp, inner) == SpineFrom(sp, 1, inner)
+SpineOK(sp) == \A i \in 1..Len(sp) : DOMAIN sp[i] = {"t", "k", "pre", "post"} /\ sp[i].t \in ContainerCodes
+
 \* ---- properties -----------------------------------------------------------
 \* same type, equal content, entries and items in their original order
 ReadBack == \A i \in 1..Len(backs) : SameValue(backs[i], vals[i])
